@@ -347,9 +347,6 @@ def draw_sched(W, allow_trace=True, walk_p=0.6, means=(3, 10, 30, 100, 300), pct
         if allow_trace and W.chance(0.5):
             trace = "all"
             sched["gap_mean"] = sched["gap_mean"] * 4
-            if W.chance(0.1):
-                sched["opcodes"] = True
-                sched["gap_mean"] = sched["gap_mean"] * 4
     elif arm == 2:
         sched = {"kind": "pct", "pct_d": 1 + W.draw(3), "pct_len": W.choice([300, 1500, 6000])}
         if allow_trace and W.chance(0.6):
